@@ -18,7 +18,7 @@ from pv.core import env
 ID = 'C16'
 LEVEL = 'fault_enumeration'
 TECHNIQUE = ('wire-level runtime monitor with requests_mock (real requests encoding): reply-body / status / fault '
-             'enumeration, recorded-request oracle, deep snapshot of the caller\'s target')
+             'enumeration, recorded-request oracle, deep snapshot of the caller\'s target; fault sequences on a living enforcer; overlapping requests under a deterministic line-level thread scheduler (sys.monitoring)')
 RULE = ('cases = reply body from an alphabet around the accepted form (True, "True", true, TRUE, quotes unbalanced or '
         'repeated, whitespace, JSON true, empty, 1 MB, undecodable bytes) x HTTP status (2xx-5xx) x fault (none, '
         'ConnectTimeout, ReadTimeout, ConnectionError, SSLError, missing client cert / key / CA file) x content type '
